@@ -268,6 +268,12 @@ class ChangeScenario(Scenario):
                 w.create(K, 'ns', args[0], body)
             elif action == 'createl':
                 w.create(K, 'ns', args[0], {'spec': {'x': 1}, 'metadata': {'labels': {args[1]: args[2]}}})
+            elif action == 'createhandled':
+                # an object that arrives already carrying a last-handled state equal to its essence (restored from a backup, copied with
+                # its annotations, handled by an earlier incarnation): nothing to do for it - and no first sight through a listing
+                spec = {'x': 1}
+                ess = json.dumps({'spec': spec}, separators=(',', ':')) + '\n'
+                w.create(K, 'ns', args[0], {'spec': spec, 'metadata': {'annotations': {LAST_HANDLED: ess}}})
             elif action == 'createbare':
                 w.create(K, 'ns', args[0], {})   # no spec, no labels: an empty essence
             elif action == 'unlabel':
